@@ -46,6 +46,7 @@ type OblResult struct {
 	obl        *Obligation
 	res        SolveResult
 	model      []string
+	replay     *ReplayOutcome
 }
 
 // propPackages finds the repo packages whose contract files mention the property.
@@ -250,6 +251,8 @@ func RunCheck(o CheckOpts) int {
 	}
 	// report
 	kf := LoadKnownFindings(filepath.Join(o.Verif, "known_findings.json"))
+	reproduced := map[string]*ReplayOutcome{}
+	replayTries := map[string]int{}
 	var nObl, nDis, nCover, nViol int
 	var solverMs int64
 	var violations []string
@@ -296,8 +299,26 @@ func RunCheck(o CheckOpts) int {
 		if r.Status == "sat" || r.Status == "unknown" {
 			r.model = modelOf(dir, w, r)
 		}
+		// replay the counterexample against the real code (at most three attempts per function; a function whose
+		// failing input has been found is not replayed again)
+		if r.Status == "sat" || r.Status == "unknown" || r.Status == "timeout" {
+			if prev, ok := reproduced[r.Function]; ok {
+				r.replay = prev
+			} else if replayTries[r.Function] < 3 && os.Getenv("GOVC_NOREPLAY") == "" {
+				replayTries[r.Function]++
+				oc := Replay(o, w, r, dir)
+				r.replay = &oc
+				if oc.Reproduced {
+					reproduced[r.Function] = &oc
+				}
+			}
+		}
 		path := writeReplay(o, w, r)
 		suffix := " no-failing-input-found"
+		if r.replay != nil && r.replay.Reproduced {
+			suffix = ""
+			fmt.Printf("REPLAYED property=%s obligation=%s input=[%s] violates: %s (test: %s)\n", o.Prop, r.ID, r.replay.Input, r.replay.Failed, r.replay.TestFile)
+		}
 		violations = append(violations, fmt.Sprintf("VIOLATION property=%s replay=%s%s", o.Prop, path, suffix))
 		if o.Verbose {
 			fmt.Printf("  FAILED %s [%s] %s :: %s\n", r.ID, r.Status, r.Kind, r.Clause)
@@ -402,6 +423,9 @@ func contractMentions(fc *FuncContract, prop string) bool {
 	if fc.Decreases != nil {
 		cs = append(cs, *fc.Decreases)
 	}
+	if fc.Stateless != nil {
+		cs = append(cs, fc.Stateless.Clause)
+	}
 	for _, a := range fc.CallAsserts {
 		cs = append(cs, a.Clause)
 	}
@@ -438,7 +462,8 @@ func writeReplay(o CheckOpts, w *World, r *OblResult) string {
 		"backend":    r.Backend,
 		"solver_output": r.res.Output,
 		"model":      r.model,
-		"replayed":   false,
+		"replayed":   r.replay != nil && r.replay.Reproduced,
+		"replay":     r.replay,
 	}
 	data, _ := json.MarshalIndent(rep, "", " ")
 	os.WriteFile(path, data, 0o644)
